@@ -404,3 +404,42 @@ def eval_pure(e, env):
             left = right
         return True
     raise Unknown(type(e).__name__)
+
+
+# --------------------------------------------------------------------------
+# statement patterns with metavariables: '$x' matches one identifier,
+# consistently within the pattern, so local renames do not matter.
+import re as _re
+_PAT_CACHE = {}
+
+
+def pattern_regex(pattern):
+    if pattern in _PAT_CACHE:
+        return _PAT_CACHE[pattern]
+    out = []
+    seen = set()
+    pos = 0
+    for m in _re.finditer(r'\$(\w+)', pattern):
+        out.append(_re.escape(pattern[pos:m.start()]))
+        name = m.group(1)
+        if name in seen:
+            out.append('(?P=%s)' % name)
+        else:
+            seen.add(name)
+            out.append('(?P<%s>[A-Za-z_][A-Za-z_0-9]*)' % name)
+        pos = m.end()
+    out.append(_re.escape(pattern[pos:]))
+    rx = _re.compile(''.join(out))
+    _PAT_CACHE[pattern] = rx
+    return rx
+
+
+def has_pattern(node_or_text, pattern, flatten=False):
+    """Does the normalised source text contain `pattern` (with $metavariables
+    standing for identifiers)?  flatten=True ignores parentheses."""
+    t = node_or_text if isinstance(node_or_text, str) else norm_text(node_or_text)
+    p = ' '.join(pattern.split())
+    if flatten:
+        t = t.replace('(', '').replace(')', '')
+        p = p.replace('(', '').replace(')', '')
+    return pattern_regex(p).search(t) is not None
